@@ -1211,6 +1211,10 @@ func main() {
 		fmt.Fprintln(os.Stderr, err)
 		os.Exit(1)
 	}
+	if err := os.WriteFile(filepath.Join(out, "WsConn.lean"), []byte(wsConnBodies(repo)), 0o644); err != nil {
+		fmt.Fprintln(os.Stderr, err)
+		os.Exit(1)
+	}
 	if err := os.WriteFile(filepath.Join(out, "Ctors.lean"), []byte(ctorSkeletons(repo)), 0o644); err != nil {
 		fmt.Fprintln(os.Stderr, err)
 		os.Exit(1)
